@@ -36,7 +36,7 @@ func init() {
 func runC03(c *Ctx) {
 	p := c.P
 
-	evType := func(name string) string { return "eq(*var:ev*.Type," + p.ConstVal(pkgState, name) + ")" }
+	evType := func(name string) string { return "eq(*var:pkg/state.Event.Type," + p.ConstVal(pkgState, name) + ")" }
 
 	// ---------- R03.1
 	c.Rule("R03.1", "E1", "store Destroy: removal only behind Finalizers().Empty(), under the collection mutex", 2)
@@ -68,7 +68,7 @@ func runC03(c *Ctx) {
 
 		for _, in := range Find(fWatch, StoreToField("Event", "Resource")) {
 			st := in.(*ssa.Store)
-			if !Glob("var:initialEvent.Resource", p.Desc(st.Addr)) {
+			if !Glob("var:pkg/state.Event.Resource", p.Desc(st.Addr)) {
 				continue
 			}
 
@@ -113,13 +113,13 @@ func runC03(c *Ctx) {
 
 		if c.NeedFunc("R03.2", deliver, "Watch delivery goroutine") {
 			c.MustCut("R03.2", "delivery loop ⊣ {initial event sent, tail/bookmark mode}", deliver, p.PlainCallTo("(*sync.Mutex).Lock"),
-				CutSpec{Edges: FactEdge("true(call:"+gSend+"(free:param#1,free:param#3,*free:var:initialEvent))", "gt(*free:var:options.TailEvents,const:0)", "nonnil(*free:var:options.StartFromBookmark)")}, 1)
+				CutSpec{Edges: FactEdge("true(call:"+gSend+"(free:param#1,free:param#3,*free:var:pkg/state.Event))", "gt(*free:var:pkg/state.Watch*Options.TailEvents,const:0)", "nonnil(*free:var:pkg/state.Watch*Options.StartFromBookmark)")}, 1)
 			// the goroutines are spawned after the snapshot
 			c.MustCut("R03.2", "go delivery ⊣ {storage lookup / bookmark / tail position computed}", fWatch,
 				func(in ssa.Instruction) bool { g, ok := in.(*ssa.Go); return ok && StaticOrClosureCallee(g) == deliver },
 				CutSpec{Nodes: OrInstr(
 					func(in ssa.Instruction) bool { l, ok := in.(*ssa.Lookup); return ok && LoadsField(l.X, "ResourceCollection", "storage") },
-					p.CallTo(pkgInmem+".decodeBookmark")), Edges: FactEdge("gt(*var:options.TailEvents,const:0)")}, 1)
+					p.CallTo(pkgInmem+".decodeBookmark")), Edges: FactEdge("gt(*var:pkg/state.Watch*Options.TailEvents,const:0)")}, 1)
 		}
 	}
 
@@ -151,7 +151,7 @@ func runC03(c *Ctx) {
 		c.MustFollow("R03.3", "between two receives the event is matched", f, isSelect, isSelect, CutSpec{Nodes: p.CallTo("(*" + pkgState + ".WatchForCondition).Matches")}, 1)
 
 		ms := p.Calls(f, "(*"+pkgState+".WatchForCondition).Matches")
-		c.Check(len(ms) == 1 && (Glob("*var:event", p.ArgDesc(ms[0], 1)) || Glob("select#*", p.ArgDesc(ms[0], 1))), "R03.3", FuncName(f)+" :: Matches is applied to the event just received", fpos(f), "yes", "Matches argument: "+descOfFirst(p, ms, 1))
+		c.Check(len(ms) == 1 && (Glob("*var:pkg/state.Event", p.ArgDesc(ms[0], 1)) || Glob("select#*", p.ArgDesc(ms[0], 1))), "R03.3", FuncName(f)+" :: Matches is applied to the event just received", fpos(f), "yes", "Matches argument: "+descOfFirst(p, ms, 1))
 		c.MustCut("R03.3", "return resource ⊣ {Matches == true}", f, AndInstr(ReturnsNilConst(1), ReturnsNonNil(0)), CutSpec{Edges: FactEdge("true(call:(*" + pkgState + ".WatchForCondition).Matches(*)#0)")}, 1)
 		c.MustCut("R03.3", "receive loop ⊣ {Watch err == nil}", f, isSelect, CutSpec{Edges: FactEdge("nil(call:" + gWatch + "(*")}, 1)
 	}
@@ -163,9 +163,9 @@ func runC03(c *Ctx) {
 		noDeleg := FactEdge("false(assert[" + pkgState + ".TeardownAndDestroyer](param#0.CoreState)#1)")
 		tdOK := "nil(call:" + gWTeardown + "(*)#1)"
 
-		c.MustCut("R03.4", "Destroy / wait ⊣ {Teardown err == nil}", f, p.CallTo(gCSDestroy, gWaitFin), CutSpec{Edges: FactEdge(tdOK)}, 3)
-		c.MustCut("R03.4", "Destroy ⊣ {ready, not destroyed}", f, p.CallTo(gCSDestroy), CutSpec{Edges: FactEdge("true(call:"+gWTeardown+"(*)#0)", "false(call:"+gWaitFin+"(*)#0)")}, 2)
-		c.MustCut("R03.4", "Destroy ⊣ {ready, wait err == nil}", f, p.CallTo(gCSDestroy), CutSpec{Edges: FactEdge("true(call:"+gWTeardown+"(*)#0)", "nil(call:"+gWaitFin+"(*)#1)")}, 2)
+		c.MustCut("R03.4", "Destroy / wait ⊣ {Teardown err == nil}", f, p.CallTo(gCSDestroy, gWaitFin), CutSpec{Edges: FactEdge(tdOK)}, 2)
+		c.MustCut("R03.4", "Destroy ⊣ {ready, not destroyed}", f, p.CallTo(gCSDestroy), CutSpec{Edges: FactEdge("true(call:"+gWTeardown+"(*)#0)", "false(call:"+gWaitFin+"(*)#0)")}, 1)
+		c.MustCut("R03.4", "Destroy ⊣ {ready, wait err == nil}", f, p.CallTo(gCSDestroy), CutSpec{Edges: FactEdge("true(call:"+gWTeardown+"(*)#0)", "nil(call:"+gWaitFin+"(*)#1)")}, 1)
 		c.MustCut("R03.4", "wait ⊣ {not ready}", f, p.CallTo(gWaitFin), CutSpec{Edges: FactEdge("false(call:" + gWTeardown + "(*)#0)")}, 1)
 		c.MustCut("R03.4", "return nil ⊣ {destroyed==true}", f, ReturnsNilConst(0), CutSpec{Edges: FactEdge("true(call:" + gWaitFin + "(*)#0)")}, 1)
 
@@ -180,18 +180,35 @@ func runC03(c *Ctx) {
 
 		c.Check(okRet, "R03.4", FuncName(f)+" :: results are Destroy's / Teardown's / wait's error or nil", fpos(f), "yes", "returns something else")
 
+		// every Teardown / Destroy call carries exactly one owner option, built from the caller's options.Owner
 		okOwner := true
 		nOwner := 0
 
-		for _, call := range p.Calls(f, "pkg/state.WithTeardownOwner", "pkg/state.WithDestroyOwner") {
-			nOwner++
+		for _, call := range p.Calls(f, gCSDestroy, gWTeardown) {
+			args := CallArgs(call)
+			elems, lit := VarargElems(args[len(args)-1])
+			n := 0
 
-			if !Glob("*var:options.Owner", p.ArgDesc(call, 0)) {
+			for _, e := range elems {
+				if Glob("call:pkg/state.With*Owner(*var:pkg/state.*Options.Owner)", p.Desc(e)) {
+					n++
+				}
+			}
+
+			if !lit || n != 1 {
+				okOwner = false
+			}
+
+			nOwner++
+		}
+
+		for _, call := range p.Calls(f, "pkg/state.WithTeardownOwner", "pkg/state.WithDestroyOwner") {
+			if !Glob("*var:pkg/state.*Options.Owner", p.ArgDesc(call, 0)) {
 				okOwner = false
 			}
 		}
 
-		c.Check(okOwner && nOwner == 3, "R03.4", FuncName(f)+" :: the caller's owner reaches Teardown and both Destroy calls", fpos(f), "3 owner options from options.Owner", fmt.Sprintf("%d owner options, from options.Owner=%v", nOwner, okOwner))
+		c.Check(okOwner && nOwner >= 2, "R03.4", FuncName(f)+" :: the caller's owner reaches Teardown and both Destroy calls", fpos(f), fmt.Sprintf("%d calls, each with the owner option from options.Owner", nOwner), fmt.Sprintf("%d Teardown/Destroy calls, each with options.Owner=%v", nOwner, okOwner))
 
 		for _, call := range p.Calls(f, gCSDestroy, gWTeardown, gWaitFin) {
 			c.Check(p.ArgDesc(call, 2) == "param#2", "R03.4", FuncName(f)+" :: "+p.CalleeName(call)+" on the caller's target", call.Pos(), "param#2", "target is "+p.ArgDesc(call, 2))
@@ -207,7 +224,7 @@ func runC03(c *Ctx) {
 		c.MustCut("R03.5", "(true,nil) ⊣ {Type==Destroyed}", f, AndInstr(p.RetIs(0, "const:true"), ReturnsNilConst(1)), CutSpec{Edges: FactEdge(evType("Destroyed"))}, 1)
 		c.MustCut("R03.5", "(false,nil) ⊣ {Type ∈ {Created,Updated}}", f, AndInstr(p.RetIs(0, "const:false"), ReturnsNilConst(1)), CutSpec{Edges: FactEdge(evType("Created"), evType("Updated"))}, 1)
 		c.MustCut("R03.5", "(false,nil) ⊣ {Finalizers().Empty() of the event's resource}", f, AndInstr(p.RetIs(0, "const:false"), ReturnsNilConst(1)),
-			CutSpec{Edges: FactEdge("true(call:(pkg/resource.Finalizers).Empty(*call:(*pkg/resource.Metadata).Finalizers(call:(pkg/resource.Resource).Metadata(*var:event.Resource))))")}, 1)
+			CutSpec{Edges: FactEdge("true(call:(pkg/resource.Finalizers).Empty(*call:(*pkg/resource.Metadata).Finalizers(call:(pkg/resource.Resource).Metadata(*var:pkg/state.Event.Resource))))")}, 1)
 
 		okErr := true
 		nErr := 0
@@ -217,13 +234,13 @@ func runC03(c *Ctx) {
 			r := in.(*ssa.Return)
 			d := p.Desc(r.Results[1])
 
-			if !(d == "*var:event.Error" || Glob("call:(context.Context).Err(*", d) || Glob("call:"+gWatch+"(*", d)) || p.Desc(r.Results[0]) != "const:false" {
+			if !(d == "*var:pkg/state.Event.Error" || Glob("call:(context.Context).Err(*", d) || Glob("call:"+gWatch+"(*", d)) || p.Desc(r.Results[0]) != "const:false" {
 				okErr = false
 			}
 		}
 
 		c.Check(okErr && nErr == 3, "R03.5", FuncName(f)+" :: error exits return (false, {event.Error | ctx.Err() | Watch err})", fpos(f), "3 error exits", fmt.Sprintf("%d error exits, well-formed=%v", nErr, okErr))
-		c.MustCut("R03.5", "return event.Error ⊣ {Type==Errored}", f, p.RetIs(1, "*var:event.Error"), CutSpec{Edges: FactEdge(evType("Errored"))}, 1)
+		c.MustCut("R03.5", "return event.Error ⊣ {Type==Errored}", f, p.RetIs(1, "*var:pkg/state.Event.Error"), CutSpec{Edges: FactEdge(evType("Errored"))}, 1)
 		// Destroyed must lead to a return, not to another wait
 		c.NoReach("R03.5", "Destroyed event never loops back to the receive", f, p.EdgeSuccs(f, evType("Destroyed")), 1, isSelect, CutSpec{})
 		c.NoReach("R03.5", "Errored event never loops back to the receive", f, p.EdgeSuccs(f, evType("Errored")), 1, isSelect, CutSpec{})
@@ -242,7 +259,7 @@ func runC03(c *Ctx) {
 
 		if ok {
 			elems, lit := VarargElems(CallArgs(uw[0])[4])
-			ok = lit && len(elems) == 1 && Glob("call:pkg/state.WithUpdateOwner(*var:options.Owner)", p.Desc(elems[0]))
+			ok = lit && len(elems) == 1 && Glob("call:pkg/state.WithUpdateOwner(*var:pkg/state.*Options.Owner)", p.Desc(elems[0]))
 			d = p.ArgDesc(uw[0], 2)
 			ok = ok && Glob("call:(pkg/resource.Resource).Metadata(call:"+gGet+"(param#0.CoreState,param#1,param#2,nil)#0)", d)
 		}
@@ -258,22 +275,55 @@ func runC03(c *Ctx) {
 			c.Check(len(sp) == 1 && p.ArgDesc(sp[0], 1) == td && Glob("call:(pkg/resource.Resource).Metadata(param#0)", p.ArgDesc(sp[0], 0)), "R03.6", FuncName(mut)+" :: SetPhase(TearingDown) on its argument", fpos(mut), "yes", "mutator does not set PhaseTearingDown on its argument")
 		}
 
+		// every success return yields Finalizers().Empty() of Metadata(X), X ∈ {value returned by the committed
+		// update, current value}; a return that can only see the current value needs the already-tearing-down edge
 		okR := true
 		nR := 0
+		alreadyTD := FactEdge("eq(call:(pkg/resource.Metadata).Phase(*call:(pkg/resource.Resource).Metadata(call:"+gGet+"(*)#0)),"+td+")",
+			"true(assert["+pkgState+".Teardowner](param#0.CoreState)#1)")
 
 		for _, in := range Find(f, ReturnsNilConst(1)) {
-			nR++
-			d := p.DescN(in.(*ssa.Return).Results[0], 7)
-			want1 := "call:(pkg/resource.Finalizers).Empty(*call:(*pkg/resource.Metadata).Finalizers(call:(pkg/resource.Resource).Metadata(phi(call:" + gGet + "(*)#0|call:" + gUWC + "(*)#0))))"
-			want2 := "call:(pkg/resource.Finalizers).Empty(*call:(*pkg/resource.Metadata).Finalizers(call:(pkg/resource.Resource).Metadata(phi(call:" + gUWC + "(*)#0|call:" + gGet + "(*)#0))))"
+			ret := in
+			r0 := Fwd(in.(*ssa.Return).Results[0])
 
-			if !(Glob(want1, d) || Glob(want2, d)) {
+			if Glob("call:("+pkgState+".Teardowner).Teardown(*", p.Desc(r0)) {
+				continue // delegated
+			}
+
+			nR++
+
+			d := p.DescN(r0, 7)
+			md := p.ProvenanceCall(r0, "(pkg/resource.Resource).Metadata", 6)
+
+			if !Glob("call:(pkg/resource.Finalizers).Empty(*call:(*pkg/resource.Metadata).Finalizers(call:(pkg/resource.Resource).Metadata(*)))", d) || md == nil {
 				okR = false
 				detailSet(&d, d)
+
+				continue
+			}
+
+			sawUWC := false
+
+			for _, l := range PhiLeaves(CallArgs(md)[0]) {
+				ld := p.Desc(l)
+
+				switch {
+				case Glob("call:"+gUWC+"(*)#0", ld):
+					sawUWC = true
+				case Glob("call:"+gGet+"(*)#0", ld):
+				default:
+					okR = false
+				}
+			}
+
+			if !sawUWC {
+				if bad, _ := p.Reach(Entry(f), func(i ssa.Instruction) bool { return i == ret }, CutSpec{Edges: alreadyTD}); bad {
+					okR = false
+				}
 			}
 		}
 
-		c.Check(okR && nR == 1, "R03.6", FuncName(f)+" :: ready flag = Finalizers().Empty() of {value returned by the committed update | current value when already tearing down}", fpos(f), "yes", "ready flag is computed from another value")
+		c.Check(okR && nR >= 1, "R03.6", FuncName(f)+" :: ready flag = Finalizers().Empty() of {value returned by the committed update | current value when already tearing down}", fpos(f), "yes", "ready flag is computed from another value")
 		c.MustCut("R03.6", "ready flag ⊣ {UpdateWithConflicts err == nil, already tearing down}", f, ReturnsNilConst(1),
 			CutSpec{Edges: FactEdge("nil(call:"+gUWC+"(*)#1)", "eq(call:(pkg/resource.Metadata).Phase(*call:(pkg/resource.Resource).Metadata(call:"+gGet+"(*)#0)),"+td+")",
 				"true(assert["+pkgState+".Teardowner](param#0.CoreState)#1)")}, 1)
@@ -298,12 +348,12 @@ func runC03(c *Ctx) {
 
 			td := p.ConstVal(pkgResource, "PhaseTearingDown")
 			exits := FactEdge("eq(select#0,const:0)", evType("Destroyed"), evType("Errored"),
-				"eq(call:(pkg/resource.Metadata).Phase(*call:(pkg/resource.Resource).Metadata(*var:ev.Resource)),"+td+")")
+				"eq(call:(pkg/resource.Metadata).Phase(*call:(pkg/resource.Resource).Metadata(*var:pkg/state.Event.Resource)),"+td+")")
 			c.MustCut("R03.7", "goroutine returns ⊣ {parent done, Destroyed, Errored, phase==TearingDown}", g, IsReturn, CutSpec{Edges: exits}, 1)
 
 			// and each of those does end it (no path back to the select)
 			for name, fact := range map[string]string{"Destroyed": evType("Destroyed"), "Errored": evType("Errored"),
-				"TearingDown": "eq(call:(pkg/resource.Metadata).Phase(*call:(pkg/resource.Resource).Metadata(*var:ev.Resource))," + td + ")"} {
+				"TearingDown": "eq(call:(pkg/resource.Metadata).Phase(*call:(pkg/resource.Resource).Metadata(*var:pkg/state.Event.Resource))," + td + ")"} {
 				c.NoReach("R03.7", name+" ends the goroutine", g, p.EdgeSuccs(g, fact), 1, isSelect, CutSpec{})
 			}
 
@@ -313,7 +363,7 @@ func runC03(c *Ctx) {
 			c.MustCut("R03.7", "cancel(ev.Error) ⊣ {Type==Errored}", g, func(in ssa.Instruction) bool {
 				call, ok := in.(*ssa.Call)
 
-				return ok && Glob("dyn:free:call:context.WithCancelCause(*)#1", p.CalleeName(call)) && p.ArgDesc(call, 0) == "*var:ev.Error"
+				return ok && Glob("dyn:free:call:context.WithCancelCause(*)#1", p.CalleeName(call)) && p.ArgDesc(call, 0) == "*var:pkg/state.Event.Error"
 			}, CutSpec{Edges: FactEdge(evType("Errored"))}, 1)
 		}
 	}
